@@ -384,12 +384,38 @@ def classify(exc):
     return "error:shape", None
 
 
-def run_real(kw):
+def respell(py, how):
+    """the same keyword arguments in another public spelling (the model sees the wire form): per-atom `elements` as a
+    formula string ("CHHH", only where the string parses back to the same list), tuples, numpy arrays, integer-typed
+    coordinates are left to the generator (positions are dyadic)"""
+    import numpy as np
+    out = dict(py)
+    if how == "formula" and out.get("elements"):
+        try:
+            from ase.formula import Formula
+            txt = "".join(out["elements"])
+            if list(Formula(txt)) == list(out["elements"]):
+                out["elements"] = txt
+        except Exception:  # noqa
+            pass
+    elif how == "tuple":
+        for k in ("elements", "atom_types", "charges", "groups", "atom_type_elements", "atom_type_labels"):
+            if out.get(k):
+                out[k] = tuple(out[k])
+    elif how == "array":
+        for k, dt in (("elements", None), ("atom_types", int), ("charges", float), ("groups", int), ("atom_type_elements", None),
+                      ("atom_type_masses", float), ("positions", float)):
+            if out.get(k):
+                out[k] = np.array(out[k], dtype=dt) if dt else np.array(out[k])
+    return out
+
+
+def run_real(kw, how=None):
     """-> ({"ok": canonical} | {"err": coarse, "fine": kind|None}, the object or None)"""
     from mofun import Atoms
     try:
         with core.quiet():
-            a = Atoms(**to_py(kw))
+            a = Atoms(**respell(to_py(kw), how))
             return {"ok": core.canon_atoms(a)}, a
     except BaseException as e:  # noqa
         if isinstance(e, (KeyboardInterrupt, SystemExit)):
@@ -464,7 +490,10 @@ def run_stream(ctx, valid=None, malformed=None):
         cases.append(("malformed", kw, tags))
     impl, ops = [], []
     for stream, kw, tags in cases:
-        r, a = run_real(kw)
+        how = rng.choice([None, None, "formula", "tuple", "array"]) if stream == "valid" else None
+        if how:
+            ctx.count("construct:spelling:" + how)
+        r, a = run_real(kw, how)
         impl.append(r)
         inp = {"op": "construct", "kw": kw}
         ops.append(inp)
